@@ -102,6 +102,7 @@ def run(cfg, tier, seed, replay=None):
     notes["vm_compiled_patterns_inside_end_to_end_theorem"] = {
         "inside_stage1_deterministic_delegates": sum(1 for i in fancy_m if i["model"].get("scope") == "1"),
         "inside_stage3_every_program": sum(1 for i in fancy_m if i["model"].get("scope3") == "1"),
+        "inside_api_layer_theorems_no_keepout_under_lookbehind": sum(1 for i in fancy_m if i["model"].get("scope4") == "1"),
         "of": len(fancy_m)}
     # ---- T2
     if "t2" in tiers:
